@@ -9,9 +9,12 @@ import (
 	"encoding/json"
 	"fmt"
 	"math/big"
+	"os"
+	"path/filepath"
 	"time"
 
 	"github.com/notaryproject/notation-go/zzverif/lib/forge"
+	"github.com/notaryproject/notation-go/zzverif/lib/hx"
 	"github.com/notaryproject/notation-go/zzverif/lib/pki"
 	"github.com/opencontainers/go-digest"
 	ocispec "github.com/opencontainers/image-spec/specs-go/v1"
@@ -51,11 +54,39 @@ type Fixture struct {
 	CRLIssuer   []byte                        `json:"crl_issuer_der"`
 }
 
-// world is main's side: the fixture plus the private key for re-signing.
+// world is main's side: the fixture plus the base documents; the leaf key (for re-signing) is pki's cached key.
 type world struct {
 	Fixture
-	chain *pki.Chain
-	docs  map[string][]byte // base documents by kind
+	Docs    map[string][]byte `json:"docs"` // base documents by kind
+	Created time.Time         `json:"created"`
+	Version string            `json:"version"`
+	chain   *pki.Chain
+}
+
+const fixtureVersion = "c12-fixture-3"
+
+// loadOrBuildWorld reuses the fixture of an earlier run while it is younger than 12 h, so that
+// the case list (byte offsets, lengths) and the class histogram are the same from run to run:
+// freshly issued certificates differ in the length of their DER signatures.
+func loadOrBuildWorld() (*world, time.Time) {
+	path := filepath.Join(hx.VerifDir(), "build", fixtureVersion+".json")
+	if b, err := os.ReadFile(path); err == nil {
+		var w world
+		if json.Unmarshal(b, &w) == nil && w.Version == fixtureVersion && time.Since(w.Created) >= 0 && time.Since(w.Created) < 12*time.Hour && len(w.Sigs) > 0 {
+			return &w, w.Created
+		}
+	}
+	w := buildWorld()
+	w.Created = time.Now()
+	w.Version = fixtureVersion
+	if b, err := json.Marshal(w); err == nil {
+		_ = os.MkdirAll(filepath.Dir(path), 0o755)
+		tmp := fmt.Sprintf("%s.%d", path, os.Getpid())
+		if os.WriteFile(tmp, b, 0o644) == nil {
+			_ = os.Rename(tmp, path)
+		}
+	}
+	return w, w.Created
 }
 
 func descOf(mt string, b []byte) ocispec.Descriptor {
@@ -66,7 +97,7 @@ var b64url = base64.RawURLEncoding
 
 // signES256 signs protected.payload the JWS way with the leaf key (P-256).
 func (w *world) signJWS(protectedB64, payloadB64 string) string {
-	k := w.chain.Leaf().Key.(*ecdsa.PrivateKey)
+	k := pki.Key(pki.EC256, 0).(*ecdsa.PrivateKey) // the leaf key of buildWorld's chain
 	d := sha256.Sum256([]byte(protectedB64 + "." + payloadB64))
 	r, s, err := ecdsa.Sign(rand.Reader, k, d[:])
 	if err != nil {
@@ -87,7 +118,7 @@ func mustJSON(v any) []byte {
 }
 
 func buildWorld() *world {
-	w := &world{docs: map[string][]byte{}}
+	w := &world{Docs: map[string][]byte{}}
 	w.chain = pki.NewChain(pki.ChainOpts{Len: 3, LeafSpec: pki.EC256, Prefix: "c12"})
 	w.RootDER = w.chain.Root().Cert.Raw
 	w.Blob = []byte("c12 blob content: the quick brown fox jumps over the lazy dog")
@@ -144,20 +175,20 @@ func buildWorld() *world {
 	w.LayoutIndex = mustJSON(map[string]any{"schemaVersion": 2, "mediaType": mtIndex, "manifests": []ocispec.Descriptor{tagged, sigMD, legMD}})
 
 	// ---- documents
-	w.docs["oci-policy"] = []byte(`{"version":"1.0","trustPolicies":[{"name":"p","registryScopes":["reg.io/r","reg.io/other"],"signatureVerification":{"level":"strict","override":{"revocation":"log"},"verifyTimestamp":"afterCertExpiry"},"trustStores":["ca:s"],"trustedIdentities":["x509.subject:C=US,ST=WA,O=Verif"]},{"name":"rest","registryScopes":["*"],"signatureVerification":{"level":"skip"}}]}`)
-	w.docs["blob-policy"] = []byte(`{"version":"1.0","trustPolicies":[{"name":"p","signatureVerification":{"level":"strict","override":{"revocation":"skip"},"verifyTimestamp":"always"},"trustStores":["ca:s"],"trustedIdentities":["x509.subject:C=US,ST=WA,O=Verif"]},{"name":"g","signatureVerification":{"level":"audit"},"trustStores":["ca:s"],"trustedIdentities":["*"],"globalPolicy":true}]}`)
-	w.docs["signingkeys"] = []byte(`{"default":"k1","keys":[{"name":"k1","keyPath":"/k/k1.key","certPath":"/k/k1.crt"},{"name":"k2","id":"kid","pluginName":"p","pluginConfig":{"a":"b"}}]}`)
-	w.docs["config"] = []byte(`{"insecureRegistries":["localhost:5000"],"credsStore":"pass","credHelpers":{"reg.io":"helper"},"signatureFormat":"cose"}`)
+	w.Docs["oci-policy"] = []byte(`{"version":"1.0","trustPolicies":[{"name":"p","registryScopes":["reg.io/r","reg.io/other"],"signatureVerification":{"level":"strict","override":{"revocation":"log"},"verifyTimestamp":"afterCertExpiry"},"trustStores":["ca:s"],"trustedIdentities":["x509.subject:C=US,ST=WA,O=Verif"]},{"name":"rest","registryScopes":["*"],"signatureVerification":{"level":"skip"}}]}`)
+	w.Docs["blob-policy"] = []byte(`{"version":"1.0","trustPolicies":[{"name":"p","signatureVerification":{"level":"strict","override":{"revocation":"skip"},"verifyTimestamp":"always"},"trustStores":["ca:s"],"trustedIdentities":["x509.subject:C=US,ST=WA,O=Verif"]},{"name":"g","signatureVerification":{"level":"audit"},"trustStores":["ca:s"],"trustedIdentities":["*"],"globalPolicy":true}]}`)
+	w.Docs["signingkeys"] = []byte(`{"default":"k1","keys":[{"name":"k1","keyPath":"/k/k1.key","certPath":"/k/k1.crt"},{"name":"k2","id":"kid","pluginName":"p","pluginConfig":{"a":"b"}}]}`)
+	w.Docs["config"] = []byte(`{"insecureRegistries":["localhost:5000"],"credsStore":"pass","credHelpers":{"reg.io":"helper"},"signatureFormat":"cose"}`)
 	issuer := w.chain.Certs[1]
 	w.CRLIssuer = issuer.Cert.Raw
 	now := time.Now()
 	base := pki.CRL(issuer, 7, now.Add(-2*time.Hour), now.Add(240*time.Hour), []*big.Int{big.NewInt(4711)}, 0)
 	delta := pki.CRL(issuer, 8, now.Add(-2*time.Hour), now.Add(240*time.Hour), []*big.Int{big.NewInt(4712)}, 7)
 	w.Bases["crl-der"] = base.Raw
-	w.docs["crl-cache"] = mustJSON(map[string]any{"baseCRL": base.Raw, "deltaCRL": delta.Raw})
-	w.docs["index.json"] = w.LayoutIndex
-	w.docs["signature-manifest"] = sigM
-	w.docs["legacy-artifact-manifest"] = legM
+	w.Docs["crl-cache"] = mustJSON(map[string]any{"baseCRL": base.Raw, "deltaCRL": delta.Raw})
+	w.Docs["index.json"] = w.LayoutIndex
+	w.Docs["signature-manifest"] = sigM
+	w.Docs["legacy-artifact-manifest"] = legM
 
 	// ---- plugin outputs
 	var chainB64 []string
